@@ -14,3 +14,4 @@ import TLX.Props.C10
 import TLX.Props.C12
 import TLX.Props.C17
 import TLX.Props.C01Suites
+import TLX.Props.C02Session
